@@ -190,6 +190,17 @@ def _gen_shape(repo):
         and any(isinstance(x, ast.Raise) and x.exc is None for x in n.body[0].body)
         for n in ast.walk(g))
 
+    # ---- Supervisor.body: the start-up burst
+    g = find_func(tree, 'Supervisor.body')
+    gt = [_norm(st) for st in _walk_stmts(g)]
+    facts['burst_budget_is_ten_per_slot_per_second'] = 'pool.restart_state = restart_state(10 * pool._processes, 1)' in gt
+    loop = next((st for st in ast.walk(g) if isinstance(st, ast.For) and _norm(st.iter) == 'range(10)'), None)
+    facts['burst_is_ten_passes_then_own_limiter_restored'] = loop is not None and \
+        _norm(loop).startswith('for _ in range(10): if self._state == RUN and pool._state == RUN: pool._maintain_pool() time.sleep(0.1)') and \
+        facts['burst_budget_is_ten_per_slot_per_second'] and 'prev_state = pool.restart_state' in gt and 'pool.restart_state = prev_state' in gt and \
+        gt.index('prev_state = pool.restart_state') < gt.index('pool.restart_state = restart_state(10 * pool._processes, 1)') \
+        < gt.index('pool.restart_state = prev_state')
+
     out = ['(* GENERATED by translate/kernels/poolshape.py from billiard/pool.py -- do not edit *)']
     for k in sorted(facts):
         out.append('Definition %s : bool := %s.' % (k, 'true' if facts[k] else 'false'))
